@@ -7,6 +7,7 @@ import (
 	"path/filepath"
 	"runtime"
 	"strings"
+	"sync/atomic"
 	"time"
 
 	"github.com/q191201771/lal/pkg/base"
@@ -53,6 +54,7 @@ type attached struct {
 	ts     *lalclient.TsConsumer
 	rs     *rtspCons
 	j      int // len(P) when it joined
+	ends0  int // world.endsSeen when it joined
 	minInc int // content of earlier incarnations must never reach it
 	gone   bool
 }
@@ -69,6 +71,8 @@ type input struct {
 	p    *lalclient.Publisher
 	ctx  logic.ICustomizePubSessionContext
 	rt   *rtspInput
+	pull *pullInput
+	gb   *gbInput
 }
 
 // unitRef locates one elementary unit (NAL unit, audio frame) by content.
@@ -90,7 +94,10 @@ type world struct {
 	pushes   []*pushConn // push connections of the current incarnation
 	late     []*stub.Conn // accepted, handshake withheld until the input has ended (PushLate)
 	tickSeq  uint32
+	curInc   int
 	units    map[string]unitRef // every published elementary unit by content
+	pullOrigin *stub.RtmpStub // stub origin of relay pull incarnations
+	endsSeen int32              // number of input ends so far (atomic: RTSP consumer goroutines read it) (consumers remember how many they witnessed)
 }
 
 func (w *world) panicV() *pbt.Violation { return w.s.PanicViolation() }
@@ -112,9 +119,19 @@ func run(c Case) *pbt.Violation {
 		w.stubs = append(w.stubs, st)
 		addrs = append(addrs, st.Addr)
 	}
+	for _, in := range c.Incs {
+		if in.Input == "pull" && w.pullOrigin == nil {
+			st, err := stub.NewRtmpStub()
+			if err != nil {
+				panic(pbt.HarnessError{Msg: "stub origin listen: " + err.Error()})
+			}
+			w.pullOrigin = st
+		}
+	}
 	w.s = inproc.New(inproc.Config{RtmpGopNum: c.RtmpGop, FlvGopNum: c.FlvGop, TsGopNum: c.TsGop, RtmpMergeWrite: c.Merge,
 		DisableRtsp: !c.Rtsp, DisableTs: !c.HttpTs, Hls: c.Hls, HlsFragmentMs: c.FragMs, HlsFragmentNum: 6, RecordFlv: c.RecFlv, RecordTs: c.RecTs,
-		PushAddrs: addrs, Hook: c.Hook})
+		PushAddrs: addrs, Hook: c.Hook, DummyAudio: c.DummyAudio, DummyAudioWaitMs: c.DummyWaitMs})
+	base0 := observe() // goroutines running lal / naza code and descriptors before the first session (audit-1 entry 7)
 	var restoreFs func()
 	if c.Hls {
 		w.layer = hlsfs.New(filepath.Join(w.s.Dir, "hls"), nil, nil)
@@ -142,6 +159,9 @@ func run(c Case) *pbt.Violation {
 		for _, st := range w.stubs {
 			st.Close()
 		}
+		if w.pullOrigin != nil {
+			w.pullOrigin.Close()
+		}
 		if restoreFs != nil {
 			restoreFs()
 		}
@@ -160,12 +180,76 @@ func run(c Case) *pbt.Violation {
 			}
 		}
 	}
-	return w.panicV()
+	if v := w.panicV(); v != nil {
+		return v
+	}
+	return w.baselineCheck(base0)
 }
+
+// baselineCheck: every session has gone; after one sweep of the manager's ticker
+// (or after ServerManager.Dispose) the goroutines that run lal / naza code and
+// the descriptors of the process are back at what they were before the first
+// session.  Harness-owned sockets (stub connections) are closed first.
+func (w *world) baselineCheck(base0 procState) *pbt.Violation {
+	for _, st := range w.stubs {
+		for _, c := range st.Conns() {
+			c.Close()
+		}
+	}
+	if w.pullOrigin != nil {
+		for _, c := range w.pullOrigin.Conns() {
+			c.Close()
+		}
+	}
+	how := "after ServerManager.Dispose"
+	if !w.disposed {
+		how = "after every session had left and one sweep of the manager's ticker"
+		if w.s.Call("VerifTick", func() { w.s.SM.VerifTick(7) }) {
+			return w.panicV()
+		}
+		for _, g := range w.s.SM.StatAllGroup() {
+			if g.StreamName == streamName {
+				gr := w.group()
+				return pbt.V("group-not-removed", "every session of the stream has left, yet the ticker's sweep did not remove the group: in=%v out=%v inactive=%v", gr.HasInSession(), gr.HasOutSession(), gr.IsInactive())
+			}
+		}
+	}
+	w.s.WaitSessions(lalclient.IdleTimeout)
+	t0 := time.Now()
+	lastKey, same := "", 0
+	for {
+		cur := observe()
+		d := cur.diff(base0)
+		if d == "" {
+			return nil
+		}
+		if cur.key() == lastKey {
+			same++
+		} else {
+			same, lastKey = 1, cur.key()
+		}
+		if time.Since(t0) > leakGuard && same >= 3 {
+			sig := "leak/goroutines"
+			if !strings.Contains(d, "goroutine") {
+				sig = "leak/descriptors"
+			}
+			return pbt.V(sig, "%s the process is not back at the state before the first session (%v later, three identical observations): %s", how, time.Since(t0).Round(time.Millisecond), d)
+		}
+		if time.Since(t0) > 60*time.Second {
+			lalclient.Harness("process state neither returns to the baseline nor stabilises: %s", d)
+		}
+		time.Sleep(20 * time.Millisecond)
+	}
+}
+
+// leakGuard: goroutines end within microseconds of their session's teardown; a
+// difference is reported only after it has been observed unchanged for this
+// long (three identical observations).
+const leakGuard = 5 * time.Second
 
 func (w *world) join(ci int, inc int) *pbt.Violation {
 	k := w.c.Cons[ci]
-	a := &attached{idx: ci, spec: k, j: len(w.P), minInc: inc}
+	a := &attached{idx: ci, spec: k, j: len(w.P), minInc: inc, ends0: int(atomic.LoadInt32(&w.endsSeen))}
 	switch k.Kind {
 	case "rtmp":
 		a.rc = lalclient.NewRtmpSub(w.s, "live", streamName)
@@ -225,6 +309,12 @@ func (w *world) startInput(i int) (*input, *pbt.Violation) {
 	if in.Input == "rtsp" {
 		return w.startRtspInput(i)
 	}
+	if in.Input == "pull" {
+		return w.startPullInput(i)
+	}
+	if in.Input == "gb" {
+		return w.startGbInput(i)
+	}
 	p := lalclient.NewPublisher(w.s, "live", streamName, 4096)
 	if p.Err != nil {
 		if v := w.panicV(); v != nil {
@@ -255,6 +345,12 @@ func (w *world) send(inp *input, it gen.Item, cd gen.Codecs) *pbt.Violation {
 	if inp.kind == "rtsp" {
 		return w.sendRtsp(inp.rt, it, cd)
 	}
+	if inp.kind == "pull" {
+		return w.sendPull(inp.pull, it, cd)
+	}
+	if inp.kind == "gb" {
+		return w.sendGb(inp.gb, it, w.c.Incs[w.curInc])
+	}
 	pl := it.Payload(cd)
 	msg := base.RtmpMsg{Header: base.RtmpHeader{Csid: 6, MsgLen: uint32(len(pl)), MsgTypeId: it.TypeID(), MsgStreamId: 1, TimestampAbs: it.Ts}, Payload: pl}
 	var err error
@@ -273,6 +369,12 @@ func (w *world) quiesce(inp *input, what string) {
 	}
 	if inp.kind == "rtsp" && !inp.rt.conn.WaitPeerIdle(lalclient.IdleTimeout) {
 		lalclient.Harness("rtsp publisher not drained (%s)", what)
+	}
+	if inp.kind == "pull" {
+		w.quiescePull(inp.pull, what)
+	}
+	if inp.kind == "gb" {
+		w.quiesceGb(inp.gb, what)
 	}
 }
 
@@ -348,6 +450,7 @@ func (w *world) establishPushes(i int) {
 
 func (w *world) incarnation(i int) *pbt.Violation {
 	in := w.c.Incs[i]
+	w.curInc = i
 	for ci, k := range w.c.Cons {
 		if k.Inc == i && k.JoinAt == -1 {
 			if v := w.join(ci, i); v != nil {
@@ -364,8 +467,8 @@ func (w *world) incarnation(i int) *pbt.Violation {
 	if v := w.hookCheck(i, "after the input was accepted", i+1, i); v != nil {
 		return v
 	}
-	if inp.kind != "cust" {
-		w.establishPushes(i)
+	if inp.kind == "rtmp" || inp.kind == "rtsp" {
+		w.establishPushes(i) // lal relays only RTMP / RTSP publishers
 	} else {
 		w.pushes, w.late = nil, nil
 	}
@@ -395,8 +498,8 @@ func (w *world) incarnation(i int) *pbt.Violation {
 			if v := w.send(inp, it, in.Codecs); v != nil {
 				return v
 			}
-			if inp.kind == "rtsp" && it.Kind != "video" && it.Kind != "audio" {
-				continue // travels in the session description, not as a message
+			if remuxed(inp.kind) && it.Kind != "video" && it.Kind != "audio" {
+				continue // travels in the session description / in-band, not as a message
 			}
 			pl := it.Payload(in.Codecs)
 			if it.Kind == "meta" {
@@ -422,11 +525,13 @@ func (w *world) incarnation(i int) *pbt.Violation {
 	if v := w.panicV(); v != nil {
 		return v
 	}
-	if inp.kind != "rtsp" {
-		// (an RTSP input reaches the RTMP-side outputs through lal's A/V interleave queue, which holds the newest
+	if !remuxed(inp.kind) {
+		// (an RTSP / GB28181 input reaches the RTMP-side outputs through lal's A/V interleave queue, which holds the newest
 		// frames: neither the stat fields nor the tail are due at a known instant)
-		if v := w.statCheck(i); v != nil {
-			return v
+		if !(w.c.DummyAudio && dummyHolding(in, w.c.DummyWaitMs)) { // (held back by the dummy-audio filter: nothing is due yet)
+			if v := w.statCheck(i); v != nil {
+				return v
+			}
 		}
 		if v := w.livenessWaits(i, incStart); v != nil {
 			return v
@@ -440,22 +545,47 @@ func (w *world) incarnation(i int) *pbt.Violation {
 			inp.p.Close()
 		} else if inp.kind == "rtsp" {
 			_ = inp.rt.conn.Close()
+		} else if inp.kind == "pull" {
+			inp.pull.oc.Close() // the origin ends the stream
+		} else if inp.kind == "gb" {
+			// GB28181 has no notion of a disconnect (UDP by default): a device that goes away is noticed by the
+			// session's timeout, i.e. by the following ticks
+			_ = inp.gb.conn.Close()
+			g := w.group()
+			if w.s.Call("Tick", func() { g.Tick(sweepTick) }) || w.s.Call("Tick", func() { g.Tick(2 * sweepTick) }) {
+				return w.panicV()
+			}
 		} else if w.s.Call("DelCustomizePubSession", func() { w.s.SM.DelCustomizePubSession(inp.ctx) }) {
 			return w.panicV()
 		}
+	case "stop":
+		var resp base.ApiCtrlStopRelayPullResp
+		if w.s.Call("CtrlStopRelayPull", func() { resp = w.s.SM.CtrlStopRelayPull(streamName) }) {
+			return w.panicV()
+		}
+		if resp.ErrorCode != base.ErrorCodeSucc {
+			return pbt.V("stop-pull/refused", "incarnation %d: stop_relay_pull answered %d %s while the pull session is attached", i, resp.ErrorCode, resp.Desp)
+		}
 	case "kick":
 		sg := w.s.SM.StatGroup(streamName)
-		if sg == nil || sg.StatPub.SessionId == "" {
-			return pbt.V("kick/publisher-not-listed", "incarnation %d: StatGroup lists no publisher session while the %s publisher is attached", i, inp.kind)
+		id := ""
+		if sg != nil {
+			id = sg.StatPub.SessionId
+			if inp.kind == "pull" {
+				id = sg.StatPull.SessionId
+			}
+		}
+		if id == "" {
+			return pbt.V("kick/publisher-not-listed", "incarnation %d: StatGroup lists no input session while the %s input is attached", i, inp.kind)
 		}
 		var resp base.ApiCtrlKickSessionResp
 		if w.s.Call("CtrlKickSession", func() {
-			resp = w.s.SM.CtrlKickSession(base.ApiCtrlKickSessionReq{StreamName: streamName, SessionId: sg.StatPub.SessionId})
+			resp = w.s.SM.CtrlKickSession(base.ApiCtrlKickSessionReq{StreamName: streamName, SessionId: id})
 		}) {
 			return w.panicV()
 		}
 		if resp.ErrorCode != base.ErrorCodeSucc {
-			return pbt.V("kick/refused", "incarnation %d: kick of publisher session %s answered %d %s", i, sg.StatPub.SessionId, resp.ErrorCode, resp.Desp)
+			return pbt.V("kick/refused", "incarnation %d: kick of %s input session %s answered %d %s", i, inp.kind, id, resp.ErrorCode, resp.Desp)
 		}
 	case "idle":
 		// the publisher stops sending; two consecutive sweeps of the idle check
@@ -481,7 +611,18 @@ func (w *world) incarnation(i int) *pbt.Violation {
 			return v
 		}
 	}
-	if inp.kind != "cust" {
+	if inp.kind == "pull" || inp.kind == "gb" {
+		if v := w.waitInputGone(i, inp.kind, in.End); v != nil {
+			return v
+		}
+		if inp.kind == "pull" {
+			inp.pull.oc.Close()
+			// the relay pull stays configured otherwise (retry rules are C17's subject)
+			w.s.Call("CtrlStopRelayPull", func() { w.s.SM.CtrlStopRelayPull(streamName) })
+		} else {
+			_ = inp.gb.conn.Close()
+		}
+	} else if inp.kind != "cust" {
 		pconn := inp.rt.connOr(inp.p)
 		if !pconn.WaitPeerDone(lalclient.IdleTimeout) {
 			sg := w.s.SM.StatGroup(streamName)
@@ -496,6 +637,7 @@ func (w *world) incarnation(i int) *pbt.Violation {
 		return v
 	}
 
+	atomic.AddInt32(&w.endsSeen, 1)
 	// ---- every output is finalised
 	if v := w.afterEnd(i, incStart, before, fsMark); v != nil {
 		return v
@@ -506,7 +648,7 @@ func (w *world) incarnation(i int) *pbt.Violation {
 		if a.gone {
 			continue
 		}
-		if a.ts != nil || a.rs != nil || !a.spec.Stay || in.End == "idle" || in.End == "dispose" {
+		if !a.spec.Stay || in.End == "idle" || in.End == "dispose" || (in.Input == "gb" && in.End == "close") {
 			if v := w.leave(a); v != nil {
 				return v
 			}
@@ -530,6 +672,9 @@ func (w *world) livenessWaits(i, incStart int) *pbt.Violation {
 		}
 		if a.spec.Kind == "rtmp" && w.c.Merge > 0 {
 			continue // the tail may legitimately sit in the merge-write buffer
+		}
+		if w.c.DummyAudio && dummyHolding(w.c.Incs[i], w.c.DummyWaitMs) {
+			continue // the dummy-audio filter is still deciding: nothing is due yet
 		}
 		at := a.j
 		if at < incStart {
